@@ -104,13 +104,13 @@ def is_f7(faults):
     return sum(1 for f in faults if f == 3) >= 2
 
 
-PAIRS = [(0, 0), (1, 1), (2, 2), (0, 3), (4, 4), (1, 3), (2, 1)]
+PAIRS = [(0, 0), (1, 1), (2, 2), (0, 3), (4, 4), (1, 3), (2, 1), (3, 3)]     # (3, 3): byte-identical requests that differ only by their context
 TRIPLES = [(0, 0, 3), (1, 1, 1), (4, 0, 1)]
 
 
 FAULTS = [(0, 0), (1, 0), (2, 1), (0, 2), (3, 0), (3, 3)]
 SH15 = [{"docs": list(p), "f": list(f), "ng": ng} for ng in (1, 2) for p in PAIRS for f in FAULTS] + [{"docs": list(t), "f": list(f), "ng": 1} for t in TRIPLES for f in FAULTS[:3]]
-QUICK15 = [i for i, s in enumerate(SH15) if s["ng"] == 1 and len(s["docs"]) == 2 and ((s["f"] == [0, 0] and s["docs"] in ([0, 0], [1, 1], [2, 2], [4, 4], [0, 3])) or (s["docs"] == [0, 3] and s["f"] in ([2, 1], [3, 3])) or (s["docs"] == [1, 3] and s["f"] == [1, 0]))]
+QUICK15 = [i for i, s in enumerate(SH15) if s["ng"] == 1 and len(s["docs"]) == 2 and ((s["f"] == [0, 0] and s["docs"] in ([0, 0], [1, 1], [2, 2], [4, 4], [0, 3], [3, 3])) or (s["docs"] == [0, 3] and s["f"] in ([2, 1], [3, 3])) or (s["docs"] == [1, 3] and s["f"] == [1, 0]))]
 
 
 @obligation(tier="quick", timeout=300, thorough_timeout=1500, shards=SH15, quick_shards=QUICK15,
